@@ -37,6 +37,8 @@ func ruleNewEventLayout(r *Run, p *Prog) {
 	lfn := p.Global("", "LevelFieldName")
 	lfm := p.Global("", "LevelFieldMarshalFunc")
 	lc := levelConsts(p)
+	shouldFn := p.Method("", "Logger", "should")
+	ne = p.View(ne, "keep-should-newEvent", func(g *ssa.Function) bool { return g == shouldFn || g == pne })
 	paths, complete := enumPaths(ne, 1, 4000)
 	if !complete {
 		r.Fail("NEWEV", FnName(ne)+"/paths", p.Pos(ne.Pos()), "cannot enumerate paths")
@@ -172,22 +174,16 @@ func filterOut(ss []string, s string) []string {
 func shortConds(cs []Cmp) string { return joinMax(cmpStrings(cs), 8) }
 
 func ruleMsgLayout(r *Run, p *Prog) {
-	_, fns := eventWriterCalls(p)
-	var write *ssa.Function
-	for f := range fns {
-		write = f
-	}
-	if !r.Anchor(write != nil && len(fns) == 1, "MSG", "function invoking the event's writer") {
+	write, msg := writeAndMsg(p)
+	if !r.Anchor(write != nil, "MSG", "function invoking the event's writer") {
 		return
 	}
-	var msg *ssa.Function
-	cs := callersOf(p, write, "")
-	for f := range cs {
-		msg = f
-	}
-	if !r.Anchor(msg != nil && len(cs) == 1, "MSG", "single caller of write()") {
+	if !r.Anchor(msg != nil, "MSG", "single caller of write()") {
 		return
 	}
+	// judged with msg's private helpers inlined; write stays a call (it is an anchor)
+	writeOrig := write
+	msg = p.View(msg, "keep-write", func(g *ssa.Function) bool { return g == writeOrig })
 	fn := FnName(msg)
 	// hook calls in msg
 	var hookCalls []*ssa.Call
@@ -248,7 +244,7 @@ func ruleMsgLayout(r *Run, p *Prog) {
 	r.Ob("MSG", fn+"/message-after-hooks", p.Pos(msgAppend.Pos()), !after, true, tern(!after, "hooks cannot run after the message field was appended", "a hook can run after the message field was appended (hook fields would follow the message)"))
 	var wcall *ssa.Call
 	eachInstr(msg, func(b *ssa.BasicBlock, i int, in ssa.Instruction) {
-		if c, ok := in.(*ssa.Call); ok && staticCallee(&c.Call) == write {
+		if c, ok := in.(*ssa.Call); ok && staticCallee(&c.Call) == writeOrig {
 			wcall = c
 		}
 	})
@@ -259,7 +255,19 @@ func ruleMsgLayout(r *Run, p *Prog) {
 		r.Ob("MSG", fn+"/write-last", p.Pos(wcall.Pos()), !bad1 && dom, true, tern(!bad1 && dom, "write() comes after the hook loop and the message field", "write() is not the last step: hooks or the message field can follow it, or it can be reached without running the hooks"))
 	}
 	// write(): the writer call is control-dependent on e.level != Disabled
-	sites, _ := eventWriterCalls(p)
+	write = p.View(write, "", nil)
+	var sites []*ssa.Call
+	eachInstr(write, func(b *ssa.BasicBlock, i int, in ssa.Instruction) {
+		if c, ok := in.(*ssa.Call); ok && c.Call.IsInvoke() {
+			if fv, base := loadedField(c.Call.Value); fv != nil && typeIs(base.Type(), modPath, "Event") {
+				sites = append(sites, c)
+			}
+		}
+	})
+	if len(sites) == 0 {
+		r.Ob("MSG", FnName(write)+"/discard-gate", p.Pos(write.Pos()), false, true, "writer invocation not found in write()")
+		return
+	}
 	lc := levelConsts(p)
 	wcs := necessaryCmps(write, sites[0])
 	gated := hasCmp(wcs, func(op token.Token, x, y ssa.Value) bool {
@@ -274,14 +282,10 @@ func ruleHookPlumbing(r *Run, p *Prog) {
 	if !r.Anchor(hookT != nil, "HOOKS", "type Hook") {
 		return
 	}
-	_, fns := eventWriterCalls(p)
-	var write *ssa.Function
-	for f := range fns {
-		write = f
-	}
-	var msg *ssa.Function
-	for f := range callersOf(p, write, "") {
-		msg = f
+	_, msg := writeAndMsg(p)
+	msgSet := map[*ssa.Function]bool{}
+	if msg != nil {
+		msgSet = p.exclusiveHelpers(msg)
 	}
 	// who invokes Hook.Run
 	for _, f := range p.ModFns {
@@ -290,7 +294,7 @@ func ruleHookPlumbing(r *Run, p *Prog) {
 			if !ok || !c.Call.IsInvoke() || c.Call.Method.Name() != "Run" || namedOf(c.Call.Value.Type()) != hookT {
 				return
 			}
-			okc := f == msg
+			okc := msgSet[f]
 			why := "the finaliser's hook loop"
 			if !okc && f.Signature.Recv() != nil && f.Name() == "Run" {
 				// adaptor types implementing Hook themselves (LevelHook)
@@ -303,7 +307,9 @@ func ruleHookPlumbing(r *Run, p *Prog) {
 	// who stores Event.ch
 	ne := p.Method("", "Logger", "newEvent")
 	pne := p.Func("", "newEvent")
-	for _, f := range p.ModFns {
+	// stores are judged where the value is known: in the views of the functions judged on their own
+	for _, f := range p.RootViews([]string{""}, "keep-newEvent", func(g *ssa.Function) bool { return g == ne || g == pne }) {
+		root := viewRoot(f)
 		eachInstr(f, func(b *ssa.BasicBlock, i int, in ssa.Instruction) {
 			st, ok := in.(*ssa.Store)
 			if !ok {
@@ -313,7 +319,7 @@ func ruleHookPlumbing(r *Run, p *Prog) {
 			if !ok || !typeIs(fa.X.Type(), modPath, "Event") || fname(fieldVar(fa)) != "ch" {
 				return
 			}
-			okc := (f == ne && isFieldOfParam(st.Val, f, 0, "hooks")) || (f == pne && isNilConst(st.Val))
+			okc := (root == ne && isFieldOfParam(st.Val, f, 0, "hooks")) || (root == pne && isNilConst(st.Val))
 			r.Ob("HOOKS", FnName(f)+"/stores-ch", p.Pos(st.Pos()), okc, true, tern(okc, "Event.ch set from the logger's hooks / reset to nil", "Event.ch is stored with "+descr(st.Val)+" in "+FnName(f)))
 		})
 	}
